@@ -81,6 +81,11 @@ fn sql_id(q: &str) -> i64 {
     99
 }
 
+/// number of placeholders of a query of the table
+fn nparams(q: &str) -> usize {
+    (1..=9).filter(|k| q.contains(&format!("${}", k))).count()
+}
+
 fn query_id(q: &str) -> i64 {
     QUERIES.iter().position(|c| *c == q).map(|i| i as i64).unwrap_or(99)
 }
@@ -237,6 +242,12 @@ async fn backend(mut s: DuplexStream, sh: Sh, idcell: Arc<AtomicUsize>, kill: Ar
                 };
                 match f {
                     0 => {
+                        // like a real server the backend describes every placeholder of the query: the ones the
+                        // client gave no type for are inferred (as TEXT)
+                        let mut oids = oids;
+                        while oids.len() < nparams(&q) {
+                            oids.push(25);
+                        }
                         last = (serial, oids);
                         if s.write_all(&msg(b'1', b"")).await.is_err() {
                             break;
@@ -540,7 +551,8 @@ impl Case {
                         let (a, b) = stmt_identity(&s);
                         // the parameter types of the statement are the ones asked for
                         let got: Vec<i64> = s.params().iter().map(|t| t.oid() as i64).collect();
-                        if got != l[4..] {
+                        let want = l[4..].len().max(nparams(q));
+                        if got.len() != want || got[..l[4..].len()] != l[4..] {
                             self.anomaly(908);
                         }
                         r = [3, a, b];
@@ -622,7 +634,8 @@ impl Case {
                     Ok(s) => {
                         let (a, b) = stmt_identity(&s);
                         let got: Vec<i64> = s.params().iter().map(|t| t.oid() as i64).collect();
-                        if got != l[4..] {
+                        let want = l[4..].len().max(nparams(q));
+                        if got.len() != want || got[..l[4..].len()] != l[4..] {
                             self.anomaly(908);
                         }
                         r = [3, a, b];
